@@ -32,7 +32,10 @@ CONSTANTS N,              \* length of the source log
           RecvFilter,     \* TRUE: ApplyRaftReqs drops entries at or below the synced position
           ApplyFilter,    \* "le": skip idx <= synced (the design); "lt": idx < synced; "none"
           SyncedAfter,    \* TRUE: the synced position moves after the effect is applied
-          SnapHasSynced   \* TRUE: the snapshot carries the synced position
+          SnapHasSynced,  \* TRUE: the snapshot carries the synced position
+          Pipelined       \* TRUE: faithful model of a receiver with several replicas: ApplyRaftReqs queues
+                          \* the proposals of a batch without waiting; when leadership moves, the head
+                          \* proposals are cancelled while later ones of the same batch still commit
 
 VARIABLES rlog,      \* receiver's raft log: sequence of source indices proposed (committed)
           applied,   \* number of rlog entries the apply loop has gone through
@@ -79,9 +82,20 @@ RecvEntry(i, ok) ==
   /\ handed' = IF i > handed /\ (ok \/ (RecvFilter /\ Old(i, synced))) THEN i ELSE handed
   /\ UNCHANGED <<applied, effects, synced, pc, snap, replayTo, seen>>
 
+\* (multi-replica receiver) the proposal of entry i was queued and then cancelled by a leader
+\* change - but the batch had gone on: later entries of it were queued behind and commit.
+\* Nothing in the receiver refuses the entry that follows the hole (isContinueCommit only logs).
+CancelPrefix(i) ==
+  /\ Pipelined
+  /\ i \in 1..N /\ i <= handed + 1
+  /\ applied >= replayTo
+  /\ ~(RecvFilter /\ Old(i, synced))
+  /\ handed' = IF i > handed THEN i ELSE handed      \* the sender's batch continues with i+1
+  /\ UNCHANGED <<rlog, applied, effects, synced, pc, snap, replayTo, seen>>
+
 \* applyEntry, first part: the apply-time duplicate filter
 ApplyCheck ==
-  /\ pc = "idle" /\ applied < Len(rlog)
+  /\ pc = "idle" /\ applied < Len(rlog) /\ rlog[applied + 1] > 0
   /\ LET i == rlog[applied + 1]
      IN IF SkipAtApply(i, synced)
         THEN applied' = applied + 1 /\ UNCHANGED pc
@@ -105,6 +119,29 @@ ApplySynced ==
   /\ IF Finish THEN pc' = "idle" /\ applied' = applied + 1
                ELSE pc' = "effect" /\ UNCHANGED applied
   /\ UNCHANGED <<rlog, effects, snap, handed, replayTo, seen>>
+
+\* the source has compacted its log: instead of entries the sender ships a snapshot of the source's
+\* data as of entry i (NotifyTransferSnap + NotifyApplySnap); the receiver's data become exactly
+\* that, the synced position becomes i; entries at or below i that are still in the receiver's raft
+\* log are old from now on
+\* The request is itself an entry of the receiver's raft log (written here as -i), so it is
+\* replayed after a restart like any other entry.
+InstallRemoteSnap(i) ==
+  /\ applied >= replayTo
+  /\ i \in 1..N /\ i > synced
+  /\ rlog'   = Append(rlog, 0 - i)
+  /\ handed' = IF i > handed THEN i ELSE handed
+  /\ UNCHANGED <<applied, effects, synced, pc, snap, replayTo, seen>>
+
+\* the apply loop reaches a snapshot entry: restore the transferred checkpoint, then move the position
+ApplySnapEntry ==
+  /\ pc = "idle" /\ applied < Len(rlog) /\ rlog[applied + 1] < 0
+  /\ LET i == 0 - rlog[applied + 1]
+     IN IF i <= synced
+        THEN UNCHANGED <<effects, synced>>
+        ELSE effects' = [k \in 1..i |-> k] /\ synced' = i
+  /\ applied' = applied + 1
+  /\ UNCHANGED <<rlog, pc, snap, handed, replayTo, seen>>
 
 \* a ready node shows its synced position (GetSyncedRaft)
 Observe ==
